@@ -14,7 +14,15 @@ func VerifC19Emit() {
 	if vParam(4) > 0 {
 		total = vParam(4)
 	}
-	vDeploy("alphabet", false, vAcct("netmap-placeholder"), proxy, "Az", idx, total)
+	if vParam(5) == 1 {
+		// param 5 = 1: a MIXED deployment — the Netmap address is left out (resolved through NNS), the Proxy address
+		// is given explicitly and is NOT the contract NNS knows as "proxy": the explicit one is what emit must pay
+		vDeploy("netmap", false, nil, nil, nil, []any{})
+		proxy = vAcct("explicit-proxy")
+		vDeploy("alphabet", false, nil, proxy, "Az", idx, total)
+	} else {
+		vDeploy("alphabet", false, vAcct("netmap-placeholder"), proxy, "Az", idx, total)
+	}
 	vSetIR(irn)
 	g := vInt("g")
 	vAssume(g >= 0 && g <= 1000000000000)
@@ -55,6 +63,9 @@ func VerifC19Emit() {
 		half := g / 2
 		per := (g - half) * 7 / 8 / irn
 		vAssert(pg == half, "C19/proxy-gets-floor(g/2)")
+		if vParam(5) == 1 {
+			vAssert(vGasOf(vContractHash("proxy")) == 0, "C19/proxy-gets-floor(g/2)")
+		}
 		vAssert(first == per && last == per, "C19/each-inner-ring-node-gets-its-share")
 		vAssert(cg == g-half-irn*per && cg >= 0, "C19/remainder-stays-nothing-created-or-lost")
 	} else {
